@@ -5,3 +5,9 @@ From Orbit Require Export Model.Base.
 (** documentstore/index.go: the PUTALL branch marks each document's key as handled
     (true) rather than the operation's own key "" (false = the pinned commit). *)
 Definition marks_doc_key_current : bool := true.
+
+(** base_store.go recalculateReplicationMax keeps the previous maximum when it is the
+    largest (true); false = the pinned commit. *)
+Definition max_monotone_current : bool := true.
+(** base_store.go LoadFromSnapshot recomputes progress after its join (true); false = pinned. *)
+Definition snapshot_progress_current : bool := true.
